@@ -93,6 +93,7 @@ def run_c07(ctx):
     rc = random_hist(ctx, 200 if quick else 4000, 22, base=10000, sparse_init=True)
     for c in rc:
         c["groundrep"] = True
+        c["trajrep"] = True
     tf = ctx.drive("hist", rc, hashseeds=(0, 1, 2) if quick else tuple(range(16)))
     ctx.validate(tf, {c["id"]: c for c in rc}, driver="hist")
     _stats(tf, ctx, {"Apply", "ApplyOp", "IsApplicableOp", "RunPlan", "CopyState", "ExportTrajectory", "ParseTrajectory"})
@@ -136,6 +137,8 @@ def run_c14(ctx):
     rc = random_hist(ctx, 200 if quick else 4000, 20, base=20000)
     for c in rc:
         c["weights"] = "state"
+        c["groundrep"] = True
+        c["trajrep"] = True
     tf = ctx.drive("hist", rc, hashseeds=(0, 1, 2) if quick else tuple(range(16)))
     ctx.validate(tf, {c["id"]: c for c in rc}, driver="hist")
     _stats(tf, ctx, {"CopyState", "StateEq", "Apply"})
